@@ -25,11 +25,11 @@ import (
 type AccessSite struct {
 	Cell   string   `json:"cell"`
 	Write  bool     `json:"write"`
-	Kind   string   `json:"kind"` // plain | atomic | sync | escape
-	Held   []string `json:"held"` // "cell:W" / "cell:R"
-	Once   string   `json:"once,omitempty"`   // runs inside the function given to this Once
-	After  []string `json:"after"`            // Once cells whose Do certainly returned before
-	Init   bool     `json:"init"`             // runs during package initialisation
+	Kind   string   `json:"kind"`           // plain | atomic | sync | escape
+	Held   []string `json:"held"`           // "cell:W" / "cell:R"
+	Once   string   `json:"once,omitempty"` // runs inside the function given to this Once
+	After  []string `json:"after"`          // Once cells whose Do certainly returned before
+	Init   bool     `json:"init"`           // runs during package initialisation
 	Func   string   `json:"func"`
 	Pos    string   `json:"pos"`
 	Callee string   `json:"callee,omitempty"` // escape: the external callee
